@@ -19,7 +19,7 @@ RULE = ('statement templates with 1-6 placeholders over positions {select list, 
         'prepare twice, second execute; non-trivial = >= 2 placeholders; distinct by (statement, history)')
 ASSUMPTIONS = ['textual order = order of the `?` characters in the statement text',
                'column-discovery steps of prepare_steps are answered by a fake executor with a fixed column list']
-BUDGET = {'quick': (8, 80), 'thorough': (16, 400)}
+BUDGET = {'quick': (8, 240), 'thorough': (16, 1800)}
 
 TEMPLATES = [
     ('select-list', 'SELECT {P}, a, {P} AS x FROM int1.t1'),
